@@ -1314,7 +1314,7 @@ package ucfg
 //@ ensures [both_fail] rrVal(r, cfg, opts) == nil && (rrErr(r, cfg, opts) == nil || (isTyped(rrErr(r, cfg, opts)) && reasonOf(rrErr(r, cfg, opts)) == old(ErrMissing))) && !reOk(r, cfg, opts) ==> v == nil && err != nil
 
 //@ func (*expansionSingle).eval :: e, cfg, opts -> s, err
-//@ props C02 C08
+//@ props C02 C08 C11
 //@ at-call iface:varEvaler.eval requires opts != nil && opts.activeFields != nil && forall k string :: !has(opts.activeFields.fields, k)
 //@ at-call (*reference).eval requires opts != nil && opts.activeFields != nil && forall k string :: !has(opts.activeFields.fields, k)
 //@ at-call (*reference).resolve requires opts != nil && opts.activeFields != nil && forall k string :: !has(opts.activeFields.fields, k)
@@ -1325,7 +1325,7 @@ package ucfg
 //@ ensures [value] evOk(old(e.evaler), cfg) ==> (err == nil) == refOk(evStr(old(e.evaler), cfg), cfg) && (err == nil ==> s == refStr(evStr(old(e.evaler), cfg), cfg))
 
 //@ func (*expansionDefault).eval :: e, cfg, opts -> s, err
-//@ props C02 C08
+//@ props C02 C08 C11
 //@ at-call iface:varEvaler.eval requires opts != nil && opts.activeFields != nil && forall k string :: !has(opts.activeFields.fields, k)
 //@ at-call (*reference).eval requires opts != nil && opts.activeFields != nil && forall k string :: !has(opts.activeFields.fields, k)
 //@ at-call (*reference).resolve requires opts != nil && opts.activeFields != nil && forall k string :: !has(opts.activeFields.fields, k)
@@ -1336,7 +1336,7 @@ package ucfg
 //@ ensures [default] !(evOk(old(e.expansion.left), cfg) && evStr(old(e.expansion.left), cfg) != "" && refOk(evStr(old(e.expansion.left), cfg), cfg) && refStr(evStr(old(e.expansion.left), cfg), cfg) != "") ==> (err == nil) == evOk(old(e.expansion.right), cfg) && (err == nil ==> s == evStr(old(e.expansion.right), cfg))
 
 //@ func (*expansionAlt).eval :: e, cfg, opts -> s, err
-//@ props C02 C08
+//@ props C02 C08 C11
 //@ at-call iface:varEvaler.eval requires opts != nil && opts.activeFields != nil && forall k string :: !has(opts.activeFields.fields, k)
 //@ at-call (*reference).eval requires opts != nil && opts.activeFields != nil && forall k string :: !has(opts.activeFields.fields, k)
 //@ at-call (*reference).resolve requires opts != nil && opts.activeFields != nil && forall k string :: !has(opts.activeFields.fields, k)
@@ -1347,7 +1347,7 @@ package ucfg
 //@ ensures [set] evOk(old(e.expansion.left), cfg) && evStr(old(e.expansion.left), cfg) != "" && resOk(evStr(old(e.expansion.left), cfg), cfg) && resVal(evStr(old(e.expansion.left), cfg), cfg) != nil ==> (err == nil) == evOk(old(e.expansion.right), cfg) && (err == nil ==> s == evStr(old(e.expansion.right), cfg))
 
 //@ func (*expansionErr).eval :: e, cfg, opts -> s, err
-//@ props C02 C08
+//@ props C02 C08 C11
 //@ at-call iface:varEvaler.eval requires opts != nil && opts.activeFields != nil && forall k string :: !has(opts.activeFields.fields, k)
 //@ at-call (*reference).eval requires opts != nil && opts.activeFields != nil && forall k string :: !has(opts.activeFields.fields, k)
 //@ at-call (*reference).resolve requires opts != nil && opts.activeFields != nil && forall k string :: !has(opts.activeFields.fields, k)
